@@ -30,7 +30,7 @@ type genEnv struct {
 
 // genMkEnv builds an environment with symbolic payloads.
 func genMkEnv() genEnv {
-	g := genEnv{ctxK: vrt.Int64("context.k"), ctxB: vrt.Bool("context.b"), attr: vrt.Int64("e.a")}
+	g := genEnv{ctxK: genInt64("context.k"), ctxB: vrt.Bool("context.b"), attr: genInt64("e.a")}
 	ents := types.EntityMap{
 		genE: types.Entity{UID: genE, Parents: types.NewEntityUIDSet(genP),
 			Attributes: types.NewRecord(types.RecordMap{"a": types.Long(g.attr)}),
@@ -64,10 +64,15 @@ const (
 	leafNegLong
 	leafMinLong
 	leafSmallLong
+	leafDatetime
+	leafDuration
+	leafIP
+	leafSetOfEntities
+	leafEmptySet
 	leafCount
 )
 
-var genLeafNames = []string{"long", "bool", "string", "overflow", "typeerr", "context.k", "context.b", "entity", "absent-entity", "set", "record", "principal", "context.r", "decimal", "context.s", "context", "resource", "-5", "minint64", "small-long"}
+var genLeafNames = []string{"long", "bool", "string", "overflow", "typeerr", "context.k", "context.b", "entity", "absent-entity", "set", "record", "principal", "context.r", "decimal", "context.s", "context", "resource", "-5", "minint64", "small-long", "datetime", "duration", "ip", "set-of-entities", "empty-set"}
 
 // genDigitPayloads restricts generated Long payloads to one decimal digit (used by
 // the text round-trip harnesses, where printing a full-range symbolic number
@@ -94,7 +99,7 @@ func genLeaf(label string, classes []int) (ast.Node, int) {
 	case leafString:
 		return ast.String("a"), k
 	case leafOverflow:
-		return ast.Long(int64(9223372036854775807)).Add(ast.Long(vrt.Int64(label + ".addend"))), k
+		return ast.Long(int64(9223372036854775807)).Add(ast.Long(genInt64(label + ".addend"))), k
 	case leafTypeErr:
 		return ast.Long(1).LessThan(ast.String("a")), k
 	case leafCtxK:
@@ -125,6 +130,17 @@ func genLeaf(label string, classes []int) (ast.Node, int) {
 		return ast.Long(-5), k
 	case leafMinLong:
 		return ast.Long(int64(-9223372036854775808)), k
+	case leafDatetime:
+		return ast.Value(types.NewDatetimeFromMillis(genInt64(label + ".datetime"))), k
+	case leafDuration:
+		return ast.Value(types.NewDurationFromMillis(genInt64(label + ".duration"))), k
+	case leafIP:
+		ip, _ := types.ParseIPAddr("10.1.2.3/24")
+		return ast.Value(ip), k
+	case leafSetOfEntities:
+		return ast.Set(ast.Value(genP), ast.Value(genX)), k
+	case leafEmptySet:
+		return ast.Set(), k
 	case leafSmallLong:
 		v := vrt.Int64(label + ".small")
 		vrt.Assume(vrt.And(v >= 0, v <= 9)) // one digit: printing does not fork
